@@ -1,5 +1,5 @@
 (* C12: both ends of every relationship agree, for every history.  Views of the state, the invariant Inv_rel, its frame. *)
-Require Import PonyV.Model.SessionBase PonyV.Model.SessionDb PonyV.Model.Session.
+Require Import PonyV.Gen.SessionFlags PonyV.Model.SessionBase PonyV.Model.SessionDb PonyV.Model.Session.
 Require Import PonyV.Proofs.SessionLemmas PonyV.Proofs.SessionState PonyV.Proofs.SessionIdx.
 From Coq Require Import Arith.
 
@@ -1604,6 +1604,7 @@ Proof.
       + rewrite (any_del_kframe sch s1 s1' items1 (proj1 F1)). exact AR. }
   destruct r2 as [s2 u2|s2 er]; [|exact P2]. cbn [out_state] in P2.
   destruct (Nat.eqb (s_dirty s2) O && existsb (fun i => mem_nat i (sd_items (get_sd s2 o a))) items1) eqn:CND. { simpl. apply Pkr_dirty. discriminate. }
+  destruct remove_rebooks_one_to_many; [|exact P2].
   apply andb_false_iff in CND. destruct CND as [DZ|EXB].
   { left. cbn [out_state]. rewrite dirty_final_sd. apply Nat.eqb_neq in DZ. exact DZ. }
   cbn [out_state]. eapply Pkr_fields; [reflexivity|reflexivity|reflexivity|].
@@ -1894,7 +1895,7 @@ Proof.
   set (avs' := filter (fun p => negb (oval_eqb (obj_val s2 o (fst p)) (Some (snd p)))) avs).
   match goal with |- context [setmany_scan o e s2 false ?k] => destruct (setmany_scan o e s2 false k) as [[sio ch] cf] end.
   match goal with |- context [if ?c then (mark_declined s, RDecline) else _] => destruct c end. exact P.
-  destruct cf. { cbn [fst]. destruct ch. apply Pkr_dirty. discriminate. exact P2. }
+  destruct cf. { destruct entity_set_registers_undo; cbn [fst]. exact P0. destruct ch. apply Pkr_dirty. discriminate. exact P2. }
   assert (P3 : Pkr sch (fold_left (setmany_apply sch o e) avs' s2)).
   { generalize avs'. intro l. generalize P2 ND2 EE2. generalize s2. clear -WF.
     induction l as [|p t IH]; intros s0 Q2 D2 E2; simpl. exact Q2.
